@@ -8,7 +8,7 @@ import (
 )
 
 func newCtx(c *Case) *ctx {
-	x := &ctx{c: c, U: c.universe(), LU: c.lineIDs(), inIDs: map[int64]bool{}, classes: map[string]int{}}
+	x := &ctx{c: c, U: c.universe(), LU: c.lineIDs(), inIDs: map[int64]bool{}, soft: map[string]*vk.Failure{}, classes: map[string]int{}}
 	x.s = newSUT(c)
 	x.m = newModel(c)
 	return x
@@ -63,7 +63,7 @@ func checker(sub, part string) func(Case) *vk.Failure {
 			if i >= c.CheckFrom {
 				x.opDesc += "; queries afterwards"
 				last := i == len(c.Ops)-1
-				if f := x.compare(x.queryIDs(last || i%32 == 31)); f != nil {
+				if f := x.compare(x.queryIDs(last)); f != nil {
 					return f
 				}
 			}
@@ -72,7 +72,7 @@ func checker(sub, part string) func(Case) *vk.Failure {
 			}
 		}
 		x.step = len(c.Ops)
-		if f := x.checkAdapters(x.queryIDs(true)); f != nil {
+		if f := x.checkAdapters(x.queryIDs(false)); f != nil {
 			return f
 		}
 
@@ -105,6 +105,6 @@ func checker(sub, part string) func(Case) *vk.Failure {
 		if x.m.readd || x.m.replace || nk >= 3 {
 			vk.NonTrivial(sub, c.Kind, x.seq, fmt.Sprint(c.N, c.FromNodes))
 		}
-		return x.soft
+		return x.softResult()
 	}
 }
